@@ -305,6 +305,13 @@ func (x *Exec) specValue(e ast.Expr, env *SpecEnv) TV {
 		if !ok {
 			panic("spec: deref of non-pointer " + exprStr(e))
 		}
+		if pl, isPL := base.V.(PtrLocalV); isPL {
+			// pointer to a local of a caller (an inlined helper was given &buf)
+			if v, ok := env.st.vars[pl.Obj]; ok {
+				return TV{V: v, T: pt.Elem()}
+			}
+			panic(unsupported{"spec: deref of a pointer to a local that is not in scope: " + exprStr(e)})
+		}
 		if _, isStruct := pt.Elem().Underlying().(*types.Struct); isStruct {
 			return TV{V: x.specLoadStruct(pt.Elem(), base.V.(Term), env), T: pt.Elem()}
 		}
